@@ -156,9 +156,22 @@ type Extension struct {
 
 func (e *Extension) ExtOID() string {
 	if e.Kind == KCUSTOM {
-		return e.OID
+		return CanonOID(e.OID)
 	}
 	return KindOID[e.Kind]
+}
+
+// CanonOID strips leading zeros from every arc ("1.2.010" names 1.2.10).
+func CanonOID(o string) string {
+	parts := strings.Split(o, ".")
+	for i, p := range parts {
+		t := strings.TrimLeft(p, "0")
+		if t == "" && p != "" {
+			t = "0"
+		}
+		parts[i] = t
+	}
+	return strings.Join(parts, ".")
 }
 
 func (e *Extension) IsCritical() bool { return e.Critical != nil && *e.Critical }
@@ -189,6 +202,7 @@ type Entity struct {
 	Issuer     string      `json:",omitempty"`
 	Profile    string      `json:",omitempty"`
 	Serial     *int64      `json:",omitempty"`
+	SerialRaw  string      `json:",omitempty"` // written verbatim instead of Serial (numbers beyond int64)
 	IssuerUID  *Raw        `json:",omitempty"`
 	SubjectUID *Raw        `json:",omitempty"`
 	KeyAlg     string      `json:",omitempty"`
